@@ -5,7 +5,7 @@ strangers.
 files, a directory tree *outside* both holding uniquely tagged secrets (same
 relative names as files inside, so a jail break finds something), symlinks
 inside a root pointing inside and outside.  EVERY request path of <= N segments
-over a 10-symbol alphabet ('..', '.', '', names, links, encoded dots) x 0..2
+over a 12-symbol alphabet ('..', '.', '', names, links, encoded dots) x 0..2
 leading slashes x query string or not x both isdep settings goes through the
 real fe._static.  Oracle: no file opened during the call resolves outside the
 roots, and the returned bytes never contain the token of an outside file.
@@ -24,7 +24,8 @@ import shutil
 from . import common
 
 LEVEL = 'exploration'
-SEGS = ['..', '.', '', 'a.txt', 'sub', 'index.html', 'in_link', 'out_link', '%2e%2e', 'secret.txt']
+SEGS = ['..', '.', '', 'a.txt', 'sub', 'index.html', 'in_link', 'out_link', '%2e%2e', 'secret.txt',
+        'root1x', 'linked_dir']
 
 
 def build_tree(base):
@@ -56,6 +57,15 @@ def build_tree(base):
         os.symlink(os.path.join(r, 'sub'), os.path.join(r, 'in_link'))
         os.symlink(out, os.path.join(r, 'out_link'))
     os.symlink(os.path.join(out, 'secret.txt'), os.path.join(r2, 'sub', 'secret.txt'))
+    # siblings whose names merely start with a root's name
+    for sib in ('root1x', 'root2x'):
+        os.makedirs(os.path.join(jail, sib, 'sub'))
+        for rel in ('a.txt', 'secret.txt', 'index.html', 'sub/a.txt'):
+            put(os.path.join(jail, sib, rel), f'OUTSIDE-TOKEN-{sib}-{rel}')
+    # a directory inside a root whose index.html is a link to the outside
+    for r in (r1, r2):
+        os.makedirs(os.path.join(r, 'linked_dir'))
+        os.symlink(os.path.join(out, 'index.html'), os.path.join(r, 'linked_dir', 'index.html'))
     return r1, r2, out
 
 
